@@ -332,7 +332,7 @@ def mentions (v : Fin n) : Cmd n → Bool
 /-- a new helper thread: `comm = make_unique<ThreadCommunicator>(parentComm, …)` (parent's queue mutex) -/
 def stepSpawn (r : Fin n) (s : St n) (v p : Fin n) : Option (St n) :=
   if s.alive v = false ∧ s.alive p = true ∧ v ≠ r ∧ v ≠ p ∧ s.q v = [] ∧ s.out v = [] ∧
-     mainLoopPc (s.pc r) = true ∧ s.q p = [] ∧ s.out p = [] ∧
+     mainLoopPc (s.pc r) = true ∧ s.q p = [] ∧ s.out p = [] ∧ (p = r ∨ (s.pc p = .wait ∧ s.flag p = false)) ∧
      pendingTo (s.out p) v = 0 ∧ (s.q p).all (fun c => !mentions v c) = true ∧
      (List.finRange n).all (fun c => !(s.parent c == some v && s.alive c)) = true then
     some { s with alive := upd s.alive v true, parent := upd s.parent v (some p),
@@ -445,8 +445,9 @@ def stepPWr (s : St n) : Var → Bool → Option (St n)
       if s.pOut = [] ∧ s.quitF.nxt = none ∧ b = true ∧ s.search.cur = false ∧ s.search.nxt = none then
         some { s with quitF := s.quitF.wr true } else none
   | .search, b =>
-      -- EngineMainThread::startSearch (E.mutex), only after waitStop() and never after quit
-      if s.pOut = [] ∧ s.search.nxt = none ∧ b = true ∧ s.search.cur = false ∧ s.quitF.cur = false ∧ s.quitF.nxt = none then
+      -- EngineMainThread::startSearch (E.mutex), only after waitStop() and waitOptionsSet(), never after quit
+      if s.pOut = [] ∧ s.search.nxt = none ∧ b = true ∧ s.search.cur = false ∧ s.quitF.cur = false ∧ s.quitF.nxt = none ∧
+         s.optsFin = true then
         some { s with search := s.search.wr true, goCount := s.goCount + 1, epoch := s.epoch + 1 } else none
   | .hold, _ => none
 
